@@ -28,6 +28,10 @@ pub struct Case {
     pub b: Spec,
     pub confs: Vec<(Kind, f64)>,
     pub tseed: u64,
+    /// unpaired only: sample b is a reordering of sample a plus a constant (equal sizes and spreads:
+    /// the effective degrees of freedom are mathematically an integer)
+    #[serde(default)]
+    pub balanced: bool,
 }
 
 fn ci_of<F: Fl>(p: Prod, kind: Kind, level: f64, a: &Vec<F>, b: &Vec<F>) -> Out<Obs> {
@@ -97,7 +101,13 @@ fn judge<F: Fl>(c: &Case, l: &mut Local) {
     if c.prod == Prod::Paired {
         bs.n = c.a.n;
     }
-    let b64 = if matches!(c.prod, Prod::Paired | Prod::Unpaired) { sample(&bs) } else { vec![] };
+    let mut b64 = if matches!(c.prod, Prod::Paired | Prod::Unpaired) { sample(&bs) } else { vec![] };
+    if c.balanced && c.prod == Prod::Unpaired {
+        let mut rr = Rng::from(&[c.tseed, 0xba1]);
+        b64 = a64.iter().map(|x| (F::of(*x) + F::of(8.0)).f()).collect();
+        rr.shuffle(&mut b64);
+        l.count("balanced unpaired design (integer effective dof)");
+    }
     let a: Vec<F> = conv(&a64);
     let b: Vec<F> = conv(&b64);
     let case = || serde_json::to_value(c).unwrap();
@@ -406,7 +416,8 @@ fn make_case(seed: u64, i: u64, levels: &[f64]) -> Case {
         confs.push((kind, *r.pick(levels)));
         confs.push((kind, *r.pick(&[0.9, 0.95, 0.99, 0.9999])));
     }
-    Case { prod, a, b, confs, tseed: r.next_u64() }
+    let balanced = prod == Prod::Unpaired && i % 30 < 10 && matches!(a.family, Family::SmallInts | Family::Dyadic | Family::Uniform01 | Family::Normalish | Family::Progression);
+    Case { prod, a, b, confs, tseed: r.next_u64(), balanced }
 }
 
 pub fn run(run: &Arc<Run>) {
@@ -438,7 +449,7 @@ pub fn run(run: &Arc<Run>) {
             judge::<f64>(&c, l)
         }
     });
-    let mut req: Vec<String> = vec!["scaling judged".into(), "negation judged".into(), "shift judged".into(), "reordering judged".into()];
+    let mut req: Vec<String> = vec!["scaling judged".into(), "negation judged".into(), "shift judged".into(), "reordering judged".into(), "balanced unpaired design (integer effective dof)".into()];
     for ty in ["f32", "f64"] {
         for p in ["Arithmetic", "Paired", "Unpaired", "Geometric", "Harmonic"] {
             req.push(format!("{}:{}", ty, p));
